@@ -19,6 +19,7 @@ import (
 // tcpServer is the harness-owned listener in front of a serving peer: it can
 // kill every accepted connection and make the address refuse connections.
 type tcpServer struct {
+	proto []erpc.ProtoFunc // wire protocol of the accepted connections (nil = process default)
 	mu    sync.Mutex
 	ln    net.Listener
 	addr  string
@@ -59,7 +60,7 @@ func (s *tcpServer) listen() error {
 			s.mu.Lock()
 			s.conns = append(s.conns, c)
 			s.mu.Unlock()
-			go s.peer.ServeConn(c)
+			go s.peer.ServeConn(c, s.proto...)
 		}
 	}()
 	return nil
@@ -138,7 +139,8 @@ func (w *writeOnce) worst() (string, int) {
 }
 
 type c13Case struct {
-	Budget  int32 // redial attempts: 1, 3 or -1 (unlimited)
+	Proto   string // "" = process default, else the protocol given to Dial: raw | json | pb
+	Budget  int32  // redial attempts: 1, 3 or -1 (unlimited)
 	Secure  bool  // both peers run the secure plugin and every message is marked secure
 	SetID   bool
 	Actions []string // kill-idle | kill-during-call | calls | outage-short | outage-exhaust
@@ -146,7 +148,7 @@ type c13Case struct {
 }
 
 func genC13(t *rapid.T) c13Case {
-	c := c13Case{Budget: rapid.SampledFrom([]int32{1, 3, -1}).Draw(t, "budget"), SetID: rapid.Bool().Draw(t, "setid"), Callers: rapid.IntRange(1, 4).Draw(t, "callers"), Secure: rapid.IntRange(0, 2).Draw(t, "secure") == 0}
+	c := c13Case{Proto: rapid.SampledFrom([]string{"", "", "raw", "json", "pb"}).Draw(t, "proto"), Budget: rapid.SampledFrom([]int32{1, 3, -1}).Draw(t, "budget"), SetID: rapid.Bool().Draw(t, "setid"), Callers: rapid.IntRange(1, 4).Draw(t, "callers"), Secure: rapid.IntRange(0, 2).Draw(t, "secure") == 0}
 	n := rapid.IntRange(1, 5).Draw(t, "nactions")
 	for i := 0; i < n; i++ {
 		a := rapid.SampledFrom([]string{"kill-idle", "kill-idle", "kill-during-call", "calls", "outage-short", "outage-exhaust", "hook-rejects-redials", "traffic-during-outage", "traffic-during-outage", "reverse-call-in-flight", "reverse-call-in-flight", "refused-then-accepted", "refused-then-accepted"}).Draw(t, "action")
@@ -183,7 +185,11 @@ func runC13(c c13Case) []string {
 	}
 	srv := w.Peer(erpc.PeerConfig{}, srvPlugins...)
 	route, pushRoute := registerLib(srv)
-	ts := &tcpServer{peer: srv}
+	var dialProto []erpc.ProtoFunc
+	if c.Proto != "" {
+		dialProto = []erpc.ProtoFunc{protoByName(vt.StreamProtos(), c.Proto).Fn}
+	}
+	ts := &tcpServer{peer: srv, proto: dialProto}
 	if err := ts.listen(); err != nil {
 		return []string{"SKIP: no loopback listener: " + err.Error()}
 	}
@@ -192,7 +198,7 @@ func runC13(c c13Case) []string {
 	once := &writeOnce{n: map[string]int{}}
 	cli := w.Peer(erpc.PeerConfig{RedialTimes: c.Budget, RedialInterval: c13Interval, DialTimeout: 2 * time.Second}, append(cliPlugins, rec, once)...)
 	registerLib(cli) // the client serves calls issued by the server over the client's session
-	sess, stat := cli.Dial(ts.addr)
+	sess, stat := cli.Dial(ts.addr, dialProto...)
 	if !stat.OK() {
 		return []string{"initial dial failed: " + stat.String()}
 	}
@@ -638,7 +644,7 @@ func okCallLocked(sess erpc.Session, route string, fails *[]string, n *int) {
 	}
 }
 
-const ruleC13 = "a client session created by Dial over loopback TCP with redial budget 1 / 3 / unlimited (interval 3 ms), optionally with a user-assigned id and optionally with the secure plugin on both peers (every message marked secure), against a harness-owned listener that can kill all connections and refuse new ones; 1-5 generated fault actions: connection killed while idle, killed while a call awaits its (gated) reply, calls and pushes issued while the server is away (unlimited budget), short outage, outage that exhausts the budget (or a long outage with unlimited budget), a dial hook refusing every redial attempt while the server is reachable, a dial hook refusing budget-1 attempts of a round and then accepting (repeatable: the budget is per loss), bursts of concurrent calls, a call issued by the server whose client-side handler is still running at the loss followed by a server call with the same sequence number over the re-established connection; oracle: the pre-write hooks of the dialling peer fire once per message even when it is re-sent after a redial; calls in flight at the loss complete with a connection-class status or their genuine reply (never hang); after the session re-established (redial hook ran again, Health) calls succeed on the same Session value, the user-assigned id is kept and indexed; after exhaustion the close notification fires, the index forgets the session, the pending call and a later call fail with a connection error; unlimited budget survives a long outage; non-trivial = a loss during a call, >=2 losses or exhaustion; distinct by case"
+const ruleC13 = "a client session created by Dial over loopback TCP (process-default protocol, or raw / json / protobuf protocol given to Dial) with redial budget 1 / 3 / unlimited (interval 3 ms), optionally with a user-assigned id and optionally with the secure plugin on both peers (every message marked secure), against a harness-owned listener that can kill all connections and refuse new ones; 1-5 generated fault actions: connection killed while idle, killed while a call awaits its (gated) reply, calls and pushes issued while the server is away (unlimited budget), short outage, outage that exhausts the budget (or a long outage with unlimited budget), a dial hook refusing every redial attempt while the server is reachable, a dial hook refusing budget-1 attempts of a round and then accepting (repeatable: the budget is per loss), bursts of concurrent calls, a call issued by the server whose client-side handler is still running at the loss followed by a server call with the same sequence number over the re-established connection; oracle: the pre-write hooks of the dialling peer fire once per message even when it is re-sent after a redial; calls in flight at the loss complete with a connection-class status or their genuine reply (never hang); after the session re-established (redial hook ran again, Health) calls succeed on the same Session value, the user-assigned id is kept and indexed; after exhaustion the close notification fires, the index forgets the session, the pending call and a later call fail with a connection error; unlimited budget survives a long outage; non-trivial = a loss during a call, >=2 losses or exhaustion; distinct by case"
 
 func TestC13Redial(t *testing.T) {
 	rec := vt.NewRec(t, "C13", "redial", ruleC13)
